@@ -56,7 +56,7 @@ fn quantile_differential<const R: usize, const C: usize, const RC: usize>(layout
     kani::cover!(r0[[0, 0]] != r0[[1, 0]], "W: non-constant result");
 }
 
-//@ prop=C20,C01 tier=quick mem=10 timeout=3600 flags=modelmap uses=cut inst="quantiles_axis_mut(Axis(0)) on Array2<i16> 3x2: C-order owned vs stepped view vs into_dyn()" bounds="i8-range payloads, 3 requests; unwind 10"
+//@ prop=C20,C01:thorough tier=quick mem=10 timeout=3600 flags=modelmap uses=cut inst="quantiles_axis_mut(Axis(0)) on Array2<i16> 3x2: C-order owned vs stepped view vs into_dyn()" bounds="i8-range payloads, 3 requests; unwind 10"
 #[kani::proof]
 #[kani::unwind(10)]
 fn c20_quantile_c_vs_stepped() {
@@ -71,7 +71,7 @@ fn c20_quantile_c_vs_frev() {
 
 /// Ownership and dimensionality: owned / view / shared / copy-on-write / dynamic, integer sums
 /// and extrema.
-//@ prop=C20,C06,C05 tier=quick mem=8 timeout=3000 inst="mean, weighted_sum, argmin, min, count_eq on Array2<i32> 2x3: owned C-order vs ArcArray of the F-order copy vs CowArray of a stepped view vs ArrayD" bounds="all i8-range payloads; unwind 10"
+//@ prop=C20,C06:thorough,C05:thorough tier=quick mem=8 timeout=3000 inst="mean, weighted_sum, argmin, min, count_eq on Array2<i32> 2x3: owned C-order vs ArcArray of the F-order copy vs CowArray of a stepped view vs ArrayD" bounds="all i8-range payloads; unwind 10"
 #[kani::proof]
 #[kani::unwind(10)]
 fn c20_ownership_dyn_i32() {
@@ -102,7 +102,7 @@ fn c20_ownership_dyn_i32() {
 }
 
 /// NaN-skipping folds: static vs dynamic, C vs F-order rows reversed.
-//@ prop=C20,C14 tier=quick mem=6 timeout=3000 inst="min_skipnan / fold_skipnan / argmax_skipnan on ArrayView2<f32> 2x2: C-order vs F-order rows reversed vs ArrayD" bounds="all bit patterns; unwind 8"
+//@ prop=C20,C14:thorough tier=quick mem=6 timeout=3000 inst="min_skipnan / fold_skipnan / argmax_skipnan on ArrayView2<f32> 2x2: C-order vs F-order rows reversed vs ArrayD" bounds="all bit patterns; unwind 8"
 #[kani::proof]
 #[kani::unwind(8)]
 fn c20_skipnan_layouts_f32() {
